@@ -750,7 +750,7 @@ def many_sessions_case(ctx, workdir: str, sessions: int) -> None:
             ctx.violation(key, what, case)
 
 
-def second_session_case(ctx, workdir: str, transport_kind: str, k: int) -> None:
+def second_session_case(ctx, workdir: str, transport_kind: str, k: int, first: str = "normal") -> None:
     """The same Gateway object is entered, left and entered again: the second session must save on entry, keep the
     15-minute cadence and save on exit exactly like the first."""
     from aiomysensors.gateway import Config, Gateway
@@ -758,15 +758,36 @@ def second_session_case(ctx, workdir: str, transport_kind: str, k: int) -> None:
 
     path = os.path.join(workdir, "second.json")
     prepare_file(path, "missing")
-    case = {"engine": "vloop", "second_session": True, "transport": transport_kind, "k": k}
+    case = {"engine": "vloop", "second_session": True, "transport": transport_kind, "k": k, "first": first}
 
     async def scenario() -> dict:
         problems = []
         transport = make_transport(transport_kind, {"mode": "normal"})
         gateway = Gateway(transport, Config(persistence_file=path, **OPTIONS_IN_FORCE))
-        async with gateway:
-            for _ in range(k):
-                await asyncio.sleep(0)
+        # how the FIRST session ended must not matter to the second: normally, with the body raising, with the
+        # transport's disconnect failing (the connection was already gone), or never established (connect refused)
+        if first == "disconnect-fails":
+            transport.disconnect_error = DisconnectBoom("disconnect failed")
+        elif first == "connect-fails":
+            from aiomysensors.exceptions import TransportError as _TE
+
+            transport.connect_error = _TE("refused")
+        try:
+            async with gateway:
+                for _ in range(k):
+                    await asyncio.sleep(0)
+                if first == "body-raises":
+                    raise KeyError("application error")
+        except (DisconnectBoom, KeyError) as exc:
+            if first not in ("disconnect-fails", "body-raises"):
+                raise
+            _ = exc
+        except Exception as exc:  # noqa: BLE001
+            if first != "connect-fails":
+                raise
+            _ = exc
+        transport.disconnect_error = None
+        transport.connect_error = None
         gateway.nodes[20] = Node(20, 17, "2.0", sketch_name="between sessions")
         before = set(asyncio.all_tasks())
         async with gateway:
@@ -799,7 +820,7 @@ def second_session_case(ctx, workdir: str, transport_kind: str, k: int) -> None:
         if transport_kind == "mqtt-fake" and not seam:
             return
         result, _loop = run_virtual(scenario)
-    ctx.case(("second-session", transport_kind, k), sample=case)
+    ctx.case(("second-session", transport_kind, k, first), sample=case)
     ctx.clause("second-session")
     if isinstance(result, LogicalDeadlock):
         ctx.violation("context-deadlock", f"logical deadlock in {case}", case)
@@ -1311,6 +1332,13 @@ def changed_file_between_sessions_case(ctx, workdir: str, transport_kind: str, v
             ctx.violation(key, what, case)
 
 
+class _LeaveEarly(Exception):
+    """The body of a session ends before the entry save has finished."""
+
+
+EARLY_DELAY = 3.0
+
+
 def multi_loop_sessions_case(ctx, workdir: str, sessions: int, k: int, engine: str) -> None:
     """The same Gateway object entered again under a NEW event loop (an application whose retry loop calls
     asyncio.run(main(gateway)) again after a lost connection).  Each session stays long enough for the saver to park,
@@ -1332,6 +1360,11 @@ def multi_loop_sessions_case(ctx, workdir: str, sessions: int, k: int, engine: s
             async with gateway:
                 for _ in range(k):
                     await asyncio.sleep(0)
+                if engine == "vloop-early":
+                    # slow disk, and the session is over while the entry save is still inside a file operation
+                    await asyncio.sleep(EARLY_DELAY * (k % 3))
+                    gateway.nodes[90 + index] = Node(90 + index, 18, "2.1")
+                    raise _LeaveEarly
                 await asyncio.sleep(1 if engine == "vloop" else 0.01)
                 status, disk = registry_on_disk(path)
                 if engine != "vloop":
@@ -1355,6 +1388,8 @@ def multi_loop_sessions_case(ctx, workdir: str, sessions: int, k: int, engine: s
                         problems.append(("periodic-save-too-late", f"session #{index} (own event loop): a change is not on "
                                                                    f"disk {SAVE_BOUND + 5} virtual seconds later"))
                 gateway.nodes[90 + index] = Node(90 + index, 18, "2.1")
+        except _LeaveEarly:
+            await asyncio.sleep(4 * EARLY_DELAY + 5)
         except Exception as exc:  # noqa: BLE001
             problems.append(("exit-raised", f"session #{index} under its own event loop: the context raised "
                                             f"{type(exc).__name__}: {exc!s:.100}"))
@@ -1370,8 +1405,9 @@ def multi_loop_sessions_case(ctx, workdir: str, sessions: int, k: int, engine: s
                                               f"(file {status})"))
 
     for index in range(sessions):
-        if engine == "vloop":
-            result, _loop = run_virtual(lambda index=index: session(index))
+        if engine in ("vloop", "vloop-early"):
+            result, _loop = run_virtual(lambda index=index: session(index),
+                                        executor_delay=EARLY_DELAY if engine == "vloop-early" else 0.0)
             if isinstance(result, LogicalDeadlock):
                 problems.append(("context-deadlock", f"session #{index}: logical deadlock"))
             elif isinstance(result, BaseException):
@@ -1754,7 +1790,7 @@ def run_case(ctx, case: dict) -> None:
         elif "live_traffic" in case:
             live_traffic_case(ctx, workdir, case["live_traffic"][0], case["live_traffic"][1], case["seed"])
         elif case.get("second_session"):
-            second_session_case(ctx, workdir, case["transport"], case["k"])
+            second_session_case(ctx, workdir, case["transport"], case["k"], case.get("first", "normal"))
         elif "cadence_hours" in case:
             cadence_case(ctx, workdir, case["cadence_hours"], case["seed"])
         elif "connect_failure" in case:
@@ -1818,6 +1854,10 @@ def run(ctx) -> None:
                 for k in (0, 1, 3, 8, 20):
                     if ctx.mine():
                         second_session_case(ctx, workdir, transport, k)
+            for first in ("disconnect-fails", "body-raises", "connect-fails"):
+                for k in (0, 3):
+                    if ctx.mine():
+                        second_session_case(ctx, workdir, "scripted", k, first)
             unknown_option_pass(ctx, workdir)
             for i, (give_up_after, how) in enumerate(itertools.product((0.5, 4, 15, 45, 200), ("timeout", "cancel"))):
                 if ctx.mine(i):
@@ -1834,7 +1874,8 @@ def run(ctx) -> None:
                 if ctx.mine(i):
                     changed_file_between_sessions_case(ctx, workdir, transport, variant)
             for i, (engine, sessions, k) in enumerate([("vloop", 2, 0), ("vloop", 3, 2), ("real", 2, 1), ("vloop", 2, 7),
-                                                       ("real", 3, 0), ("vloop", 4, 1)]):
+                                                       ("real", 3, 0), ("vloop", 4, 1), ("vloop-early", 3, 0), ("vloop-early", 3, 1),
+                                                       ("vloop-early", 2, 2), ("vloop-early", 3, 4)]):
                 if ctx.mine(i):
                     multi_loop_sessions_case(ctx, workdir, sessions, k, engine)
             for i, (n, c) in enumerate([(150, 60), (60, 20)] + ([(200, 100), (250, 30)] if not ctx.quick else [])):
